@@ -1884,5 +1884,15 @@ func appendNotNilFilter(field *aggregateRequestTarget, childField string) {
 	}
 
 	typedChildBlock := childBlock.(map[string]any)
+	if existing, hasNe := typedChildBlock["_ne"]; hasNe && existing != nil && childField != "" {
+		// The field already has a _ne condition which must be kept, so the not-nil condition is
+		// added as a further branch of a top-level _and instead of replacing it.
+		conditions := field.filter.Value().Conditions
+		andConditions, _ := conditions[request.FilterOpAnd].([]any)
+		conditions[request.FilterOpAnd] = append(andConditions, map[string]any{
+			childField: map[string]any{"_ne": nil},
+		})
+		return
+	}
 	typedChildBlock["_ne"] = nil
 }
